@@ -202,21 +202,32 @@ func HarnessC06DrainOnCancel() {
 		zzverif.Fail("C04 Config failed on a valid stack")
 		return
 	}
+	// verification on (so that a report can be rejected); the call is also a round trip through
+	// the monitor
+	_, _, eerr := d.EnableVerification(ctx)
+	zzverif.Assert(eerr == nil, "C09 EnableVerification failed on a valid config")
 	const k = 2
 	for i := 1; i <= k; i++ {
 		e := src.wa.BlockingReportNewValue(ctx, mkValue(src.t, hval{setA: true, a: int64(i)}))
 		zzverif.Assert(e == nil, "C08 a blocking report failed with a live context")
 	}
-	// barrier: when this returns the monitor has finished the iteration that installed version k,
-	// so its announcement is in the callback queue
-	_, _, eerr := d.EnableVerification(ctx)
-	zzverif.Assert(eerr == nil, "C09 EnableVerification failed on a valid config")
-	cancel()
+	rej := src.wa.BlockingReportNewValue(ctx, mkValue(src.t, hval{setA: true, a: 9, setBad: true, bad: true}))
+	zzverif.Assert(rej != nil, "C04 an invalid update was accepted")
+	// barrier: when this returns the monitor has finished the iterations that installed version k
+	// and rejected the last report, so their announcements are in the callback queue
+	_, _, eerr = d.EnableVerification(ctx)
+	zzverif.Assert(eerr == nil, "C09 a repeated EnableVerification failed")
+	if zzverif.Choose("shutdown", 2) == 1 {
+		src.wa.Done(ctx)
+	} else {
+		cancel()
+	}
 	zzverif.Quiesce()
-	zzverif.Assert(len(log.newCfg) == k, "C06 an installed version whose announcement was already queued was skipped when the Config context was cancelled")
+	zzverif.Assert(len(log.newCfg) == k, "C06 an installed version whose announcement was already queued was skipped when the library shut down")
 	for i, n := range log.newCfg {
 		zzverif.Assert(n.new.A == int64(i+1) && n.old.A == int64(i), "C06 OnNewConfig calls are not in installation order with (predecessor, new)")
 	}
+	zzverif.Assert(len(log.watched) == 1, "C04 OnWatchedError for a rejected update that was already queued was dropped when the library shut down")
 	zzverif.Reached("c06-drain-end")
 }
 
@@ -269,4 +280,41 @@ func HarnessC06AfterOverflow() {
 	zzverif.Quiesce()
 	zzverif.Assert(len(calls) == 2 && calls[1].new.A == 70 && calls[1].old.A == 69, "C06 after the catch-up the next version was not delivered with its predecessor")
 	zzverif.Reached("c06-overflow-end")
+}
+
+// HarnessC06SameContent: a re-report whose stacked content equals the current config is still a
+// new version: it is announced like any other, and the next announcement's old config is the
+// version announced before it.
+func HarnessC06SameContent() {
+	verifyLog = nil
+	log := &cbLog{}
+	def := hcfg{}
+	src := &hwsrc{hsrc{name: "s0", init: hval{setA: true, a: 0}}}
+	ctx, cancel := context.WithCancel(context.Background())
+	defer cancel()
+	p := log.params()
+	d, err := p.Config(ctx, &def, src)
+	if err != nil {
+		zzverif.Fail("C04 Config failed on a valid stack")
+		return
+	}
+	_, ser := d.ViewVersion()
+	var calls []struct{ old, new *hcfg }
+	u := d.RegisterCallback(ctx, ser, func(_ context.Context, old, new *hcfg) {
+		calls = append(calls, struct{ old, new *hcfg }{old, new})
+	})
+	zzverif.Assert(u != nil, "C08 RegisterCallback returned nil with a live context")
+	var vers []*hcfg
+	for _, a := range []int64{1, 1, 2} {
+		e := src.wa.BlockingReportNewValue(ctx, mkValue(src.t, hval{setA: true, a: a}))
+		zzverif.Assert(e == nil, "C08 a blocking report failed with a live context")
+		vers = append(vers, d.View())
+	}
+	zzverif.Quiesce()
+	zzverif.Assert(vers[0] != vers[1], "C05 a re-report did not install a new version")
+	zzverif.Assert(len(log.newCfg) == 3 && len(calls) == 3, "C06 an installed version (a re-report with the same content) was not announced")
+	if len(calls) == 3 {
+		zzverif.Assert(calls[1].old == vers[0] && calls[1].new == vers[1] && calls[2].old == vers[1] && calls[2].new == vers[2], "C06 in an ordinary call the old config is not the immediate predecessor of the new one")
+	}
+	zzverif.Reached("c06-same-end")
 }
